@@ -35,7 +35,7 @@ func allSpecs() map[string]*PropSpec {
 		ID:          "C12",
 		Explanation: "T1: the workspace index's add and remove methods touch the same aggregates field by field and every add operation has an inverse on the remove side (+= / decrement, keyed append / keyed filter, per-file slot set / delete); an aggregate stored by overwrite and removed by key is reported as non-invertible. T2: the snapshot exports every aggregate. C12-CLEAR: every critical section of the workspace that mutates the resolved tree clears all memoised derived caches unconditionally. C12-REFRESH: the include-tree refresh is a fixpoint that recomputes reachability in every iteration and is invoked whenever the include list changed (element-wise comparison). M-ORDER: no map-iteration order reaches the index.",
 		NotDecided:  "equality of the incremental and the rebuilt view as values over update sequences (needs execution); file-system effects (files unreadable during refresh).",
-		Rules:       []func(*Ctx){ruleT1T2, ruleC12Clear, ruleC12Refresh, ruleMapOrder},
+		Rules:       []func(*Ctx){ruleT1T2, ruleC12Clear, ruleC12Refresh, ruleC12Pair, ruleMapOrder},
 	})
 	add(&PropSpec{
 		ID:          "C10",
@@ -67,6 +67,25 @@ func allSpecs() map[string]*PropSpec {
 		Explanation: "T6: every leaf of the settings struct (enumerated from the type definitions) is assigned by the settings parser in a nested-key and a dotted-key form with the same spelling, each assignment guarded by its converter's ok result and fed from the converted value (ill-typed or unknown entries leave the previous value unchanged); no key feeds two leaves; every numeric leaf has a non-positive guard in the normaliser; every leaf is read by some feature outside the parser. C19-CONVERT: converters accept by type only (no range filter that would bypass the normaliser's default fallback, boolean spellings true/false only). C19-TOTAL: no module function reachable from the settings parser contains an unchecked assertion, index, slice, non-constant division or panic, and its recursion is on a member of its argument. C-LOCKSET on the settings struct and atomic read-modify-write of a refresh (C-RMW).",
 		NotDecided:  "feature switches after initialisation (capabilities are computed once in Initialize); that a recognised value changes behaviour in the intended way (value semantics of each feature).",
 		Rules:       []func(*Ctx){ruleSettings, ruleLockset},
+	})
+	wsFresh := []func(*Ctx){ruleT1T2, ruleC12Clear, ruleC12Refresh, ruleC12Pair}
+	add(&PropSpec{
+		ID:          "C18",
+		Explanation: "T3: both analysis entry points run the undeclared-account/commodity checks under the same guard (len(declared set) > 0) for every transaction. T4: each warning code is gated by exactly its own settings field, the filter is applied to every analyzer diagnostic, its default is 'publish'. T9: the undeclared-commodity check visits every amount-bearing access path of a posting (amount, cost, assertion; derived from the ast type definitions). C18-ONCE: one warning per symbol and transaction (declared set and per-transaction seen set both guard the emission). C18-SOURCES: on the diagnostics path the declarations handed to the analyzer depend on the workspace's declared sets AND on the include tree loaded from the analysed content, and the workspace lookups are not conditioned on any setting. Workspace freshness rules (C12-CLEAR/REFRESH/PAIR, T1/T2) because declared sets are served from the workspace caches.",
+		NotDecided:  "the declared-predicate itself (prefix / standard top-level category matching in isAccountDeclared).",
+		Rules:       append([]func(*Ctx){ruleT3, ruleT4, ruleT9("T9", [2]string{"internal/analyzer", "checkUndeclaredCommodities"}), ruleSeenOnce, ruleC18Sources}, wsFresh...),
+	})
+	add(&PropSpec{
+		ID:          "C20",
+		Explanation: "D-EXACT: hover sums use exact decimal operations only (Add; String rendering). T10: the two account-balance calculators aggregate postings identically (skip amount-less postings, accumulate Quantity with Add). C20-TREE: in the hover handler balances are summed over the resolved tree's AllTransactions() and the very same list feeds the posting/transaction counts. C20-ONCE: AllTransactions is 'primary once + one pass over FileOrder' and every growth site of FileOrder is de-duplicated. Loader rules (G-ONCE, G-CACHEPATH, G-CACHEINDEP) and workspace freshness rules (C12-*) because the set of aggregated files comes from them. M-ORDER on the hover builders.",
+		NotDecided:  "the sums and counts as values; which postings 'count' (value semantics); number-notation parsing (normalizeNumber).",
+		Rules:       append([]func(*Ctx){ruleDecimalExact("internal/analyzer", "internal/server", "internal/parser"), ruleC20, ruleLoaderCache, ruleLoaderCycle, ruleMapOrder}, wsFresh...),
+	})
+	add(&PropSpec{
+		ID:          "C09",
+		Explanation: "H-PRIMARY: the function that returns a resolved tree together with the path of its primary journal pairs the workspace tree with the workspace root journal path and the per-document tree with the document path; definition/references/rename pass tree and path from one such lookup; the primary journal is keyed by that path. T9: commodity references visit amount, cost and assertion commodities. T11: the three reference collectors share one skeleton (sorted paths, URI of each location derived from the path of the journal being walked, common sort+dedup), the dedup equality covers URI and all coordinates, rename edits are a 1:1 map of the references including declarations. C12-PAIR and workspace freshness: the tree that is searched is maintained consistently. M-ORDER.",
+		NotDecided:  "that the range inside each location is the right one (C08); parse equality after applying the edits; unsaved edits of files that are not open.",
+		Rules:       append([]func(*Ctx){ruleC09, ruleT9("T9", [2]string{"internal/server", "findCommodityReferences"}), ruleMapOrder}, wsFresh...),
 	})
 	return m
 }
